@@ -292,3 +292,170 @@ Proof.
   split; [split; [reflexivity|exists 4%nat; intros row [<-|[<-|[<-|[]]]]; reflexivity]|].
   repeat (split; [vm_compute; reflexivity|]). vm_compute; reflexivity.
 Qed.
+
+(* =====================================================================================================================
+   SOURCE TIE (DESIGN.md section 10; notes/C02_tie_report.md).  The statements below are about the Python text of
+   src/pydrobert/torch/_string.py::_string_matching in the configuration `error_rate` calls it with (return_mistakes =
+   True: the parallel `mistakes` table, substitution winning ties through `>=`, the in-place sequential deletion loop,
+   the final gather, mult / norm) and about `error_rate` itself, as translated to MiniPy terms on every run
+   (PV.Gen.C02Src, harness/py2coq, unit C02Src) and interpreted by PV.MiniPy.Interp with the torch calls given the
+   meaning of PV.MiniTorch.OpsC01 / OpsC02 / OpsC07 (SrcRun.ext02 = C01's ext01 + three operations).  Costs: integers
+   ci cd cs over ANY common denominator s (the float cost is c / s: every triple of rationals, uniform or not); the cost
+   row is kept over s, the mistakes over 1 ([zf s v] = the float v / s).  No hypothesis beyond what a matrix is
+   ([wf_src]), 0 < N, and - with an eos - non-zero widths (torch.max over an empty dimension raises).
+   ===================================================================================================================== *)
+From PV Require MiniPy.Interp MiniTorch.OpsC07 MiniTorch.OpsC01 C01.TieLib C01.TieMath C02.SrcRun C02.TieMath C02.TieLoop C02.TieWhole C02.Tie.
+
+(* priority 1: ONE EXECUTION OF THE LOOP BODY (PV.Gen.C02Src.er_loop's body, hyp_idx = k) on a state that holds the
+   error_rate configuration, the tensors ref (R x N), hyp (H x N), hyp_lens, the costs, the cost row lf / s and the
+   mistakes table mf (both R+1 x N) runs to a state of the same kind whose two tables are, in EVERY column n, exactly
+   Model.step_rm of that column - candidates with substitution winning ties, the sequential deletion sweep with deletion
+   only when strictly cheaper, freezing by not_done - for both tables at once *)
+Theorem c02_source_loop_body_is_step_rm :
+  forall (s : positive) (ci cd cs : Z) (R N H : nat) (rf hf : nat -> nat -> Z) (hl : nat -> nat)
+         (vrl vmult vnorm vwarn : MiniPy.Syntax.val) (st : MiniPy.Interp.state) (k : nat) (lf mf : nat -> nat -> Z),
+  (1 <= k <= H)%nat ->
+  C02.TieLoop.body_pre s ci cd cs R N H rf hf hl vrl vmult vnorm vwarn lf mf st ->
+  C01.TieLib.runs_to
+    (C02.TieLoop.body_pre s ci cd cs R N H rf hf hl vrl vmult vnorm vwarn
+       (fun i n => nth i (fst (step_rm ci cd cs (C02.TieLoop.colf R rf n) (C02.TieLoop.colf H hf n) (hl n) false k
+                                 (C02.TieLoop.colf (S R) lf n, C02.TieLoop.colf (S R) mf n))) 0)
+       (fun i n => nth i (snd (step_rm ci cd cs (C02.TieLoop.colf R rf n) (C02.TieLoop.colf H hf n) (hl n) false k
+                                 (C02.TieLoop.colf (S R) lf n, C02.TieLoop.colf (S R) mf n))) 0))
+    (C02.Tie.run_loop_body k st).
+Proof. exact C02.Tie.loop_body_is_step_rm. Qed.
+Print Assumptions c02_source_loop_body_is_step_rm.
+
+(* priority 2: THE `for hyp_idx in range(1, max_hyp_steps + 1)` STATEMENT: H iterations of step_rm in every column *)
+Theorem c02_source_loop_is_rm_loop :
+  forall (s : positive) (ci cd cs : Z) (R N H : nat) (rf hf : nat -> nat -> Z) (hl : nat -> nat)
+         (vrl vmult vnorm vwarn : MiniPy.Syntax.val) (st : MiniPy.Interp.state) (lf mf : nat -> nat -> Z),
+  C02.TieLoop.body_pre s ci cd cs R N H rf hf hl vrl vmult vnorm vwarn lf mf st -> C02.Tie.max_hyp_steps_is H st ->
+  C01.TieLib.runs_to
+    (C02.TieLoop.body_pre s ci cd cs R N H rf hf hl vrl vmult vnorm vwarn
+       (fun i n => nth i (fst (C02.TieMath.iter_rm ci cd cs (C02.TieLoop.colf R rf n) (C02.TieLoop.colf H hf n) (hl n) H 1
+                                 (C02.TieLoop.colf (S R) lf n, C02.TieLoop.colf (S R) mf n))) 0)
+       (fun i n => nth i (snd (C02.TieMath.iter_rm ci cd cs (C02.TieLoop.colf R rf n) (C02.TieLoop.colf H hf n) (hl n) H 1
+                                 (C02.TieLoop.colf (S R) lf n, C02.TieLoop.colf (S R) mf n))) 0))
+    (C02.Tie.run_loop st).
+Proof. exact C02.Tie.loop_is_rm_loop. Qed.
+Print Assumptions c02_source_loop_is_rm_loop.
+
+(* priorities 3-4: THE WHOLE CALL.  The blocks er_pre; er_row0; er_main; er_fin, run in sequence on the arguments of the
+   call error_rate makes (ref / hyp as handed over: N rows of width R / H when batch_first, else R / H rows of width N;
+   any eos, include_eos, norm, batch_first, warn; costs c / s, uniform - the shortcut into C01's cost table on unit
+   costs - or not - the mistakes table), return the tensor of Model.error_rate, entry for entry: Cost m as the float m,
+   Ratio m d as m / d, Lit z as z ([model_tensor]) *)
+Theorem c02_source_error_rate_is_model :
+  forall (s : positive) (c : cfg) (N R H : nat) (ref hyp : list (list Z)) (w : bool) (pad : Z),
+  (0 < N)%nat -> C02.Tie.wf_src (c_bf c) N R ref -> C02.Tie.wf_src (c_bf c) N H hyp ->
+  (c_eos c <> None -> R <> 0%nat /\ H <> 0%nat) ->
+  exists st', C02.Tie.run_error_rate s c N ref hyp w pad
+              = MiniPy.Interp.Ok
+                  (MiniTorch.OpsC01.enc_x
+                     (MiniTorch.OpsC07.mkTn [N] (map (C02.TieWhole.val_fx 1) (error_rate c N ref hyp)))) st'.
+Proof. exact C02.Tie.error_rate_is_model. Qed.
+Print Assumptions c02_source_error_rate_is_model.
+
+(* THE WHOLE BODY OF THE FUNCTION AS ONE TERM (Gen.C02Src.er_body, every statement of _string_matching) *)
+Theorem c02_source_string_matching_is_model :
+  forall (s : positive) (c : cfg) (N R H : nat) (ref hyp : list (list Z)) (w : bool) (pad : Z),
+  (0 < N)%nat -> C02.Tie.wf_src (c_bf c) N R ref -> C02.Tie.wf_src (c_bf c) N H hyp ->
+  (c_eos c <> None -> R <> 0%nat /\ H <> 0%nat) ->
+  exists st', C02.Tie.run_string_matching s c N ref hyp w pad
+              = MiniPy.Interp.Ok
+                  (MiniTorch.OpsC01.enc_x
+                     (MiniTorch.OpsC07.mkTn [N] (map (C02.TieWhole.val_fx 1) (error_rate c N ref hyp)))) st'.
+Proof. exact C02.Tie.string_matching_is_model. Qed.
+Print Assumptions c02_source_string_matching_is_model.
+
+(* THE WRAPPER: the body of `error_rate` (Gen.C02Src.er_wrap), whose call `_string_matching(ref, .., warn, norm=norm,
+   return_mistakes=True)` binds the parameters in Python's way (positionals, keywords, the remaining defaults evaluated
+   in the module's globals) and runs er_body *)
+Theorem c02_source_error_rate_wrapper_is_model :
+  forall (s : positive) (c : cfg) (N R H : nat) (ref hyp : list (list Z)) (w : bool),
+  (0 < N)%nat -> C02.Tie.wf_src (c_bf c) N R ref -> C02.Tie.wf_src (c_bf c) N H hyp ->
+  (c_eos c <> None -> R <> 0%nat /\ H <> 0%nat) ->
+  exists st', C02.Tie.run_error_rate_wrapper s c N ref hyp w
+              = MiniPy.Interp.Ok
+                  (MiniTorch.OpsC01.enc_x
+                     (MiniTorch.OpsC07.mkTn [N] (map (C02.TieWhole.val_fx 1) (error_rate c N ref hyp)))) st'.
+Proof. exact C02.Tie.error_rate_wrapper_is_model. Qed.
+Print Assumptions c02_source_error_rate_wrapper_is_model.
+
+(* the executables the harness evaluates on the cases of every run ARE these runs *)
+Theorem c02_source_src_er_is_model :
+  forall (c : cfg) (scale : Z) (N R H : nat) (ref hyp : list (list Z)),
+  (0 < N)%nat -> C02.Tie.wf_src (c_bf c) N R ref -> C02.Tie.wf_src (c_bf c) N H hyp ->
+  (c_eos c <> None -> R <> 0%nat /\ H <> 0%nat) ->
+  C02.SrcRun.src_er C02.SrcRun.er_blocks c scale N ref hyp = Some (Some (map (C02.TieWhole.val_fx 1) (error_rate c N ref hyp))) /\
+  C02.SrcRun.src_er Gen.C02Src.er_body c scale N ref hyp = Some (Some (map (C02.TieWhole.val_fx 1) (error_rate c N ref hyp))) /\
+  C02.SrcRun.src_er_wrap c scale N ref hyp = Some (Some (map (C02.TieWhole.val_fx 1) (error_rate c N ref hyp))).
+Proof. exact C02.Tie.src_er_is_model. Qed.
+Print Assumptions c02_source_src_er_is_model.
+
+(* composed with c02_error_rate_optimal_alignment - a statement purely about the interpreted source of `error_rate`:
+   without normalisation entry n of the returned tensor is the number of insertions, deletions and substitutions
+   ([edits]) of a script that turns reference n into hypothesis n (each cut at its first eos) at minimum weighted cost *)
+Theorem c02_source_error_rate_counts_optimal_alignment :
+  forall (s : positive) (c : cfg) (N R H : nat) (ref hyp : list (list Z)) (w : bool),
+  (0 < N)%nat -> C02.Tie.wf_src (c_bf c) N R ref -> C02.Tie.wf_src (c_bf c) N H hyp ->
+  (c_eos c <> None -> R <> 0%nat /\ H <> 0%nat) -> c_norm c = false ->
+  exists out st',
+    C02.Tie.run_error_rate_wrapper s c N ref hyp w
+    = MiniPy.Interp.Ok (MiniTorch.OpsC01.enc_x (MiniTorch.OpsC07.mkTn [N] out)) st' /\
+    length out = N /\
+    forall n, (n < N)%nat ->
+      exists m sc,
+        nth n out MiniTorch.OpsC01.FNaN = C01.TieMath.zf 1 m
+        /\ transforms sc (denote (c_eos c) (c_incl c) (seq_of (c_bf c) n ref))
+                         (denote (c_eos c) (c_incl c) (seq_of (c_bf c) n hyp))
+        /\ (forall s', transforms s' (denote (c_eos c) (c_incl c) (seq_of (c_bf c) n ref))
+                                     (denote (c_eos c) (c_incl c) (seq_of (c_bf c) n hyp)) ->
+                       cost (c_ins c) (c_del c) (c_sub c) sc <= cost (c_ins c) (c_del c) (c_sub c) s')
+        /\ edits sc = m.
+Proof. exact C02.Tie.error_rate_counts_optimal_alignment. Qed.
+Print Assumptions c02_source_error_rate_counts_optimal_alignment.
+
+(* composed with c02_error_rate_norm: with normalisation the count of a minimum-cost alignment divided by the reference
+   length; an empty reference scores 0 when the hypothesis is empty as well and 1 otherwise *)
+Theorem c02_source_error_rate_normalised :
+  forall (s : positive) (c : cfg) (N R H : nat) (ref hyp : list (list Z)) (w : bool),
+  (0 < N)%nat -> C02.Tie.wf_src (c_bf c) N R ref -> C02.Tie.wf_src (c_bf c) N H hyp ->
+  (c_eos c <> None -> R <> 0%nat /\ H <> 0%nat) -> c_norm c = true ->
+  exists out st',
+    C02.Tie.run_error_rate_wrapper s c N ref hyp w
+    = MiniPy.Interp.Ok (MiniTorch.OpsC01.enc_x (MiniTorch.OpsC07.mkTn [N] out)) st' /\
+    length out = N /\
+    forall n, (n < N)%nat ->
+      let r := denote (c_eos c) (c_incl c) (seq_of (c_bf c) n ref) in
+      let h := denote (c_eos c) (c_incl c) (seq_of (c_bf c) n hyp) in
+      match length r with
+      | O => nth n out MiniTorch.OpsC01.FNaN = MiniTorch.OpsC01.z2f (if (0 <? length h)%nat then 1 else 0)
+      | S _ => exists m,
+          nth n out MiniTorch.OpsC01.FNaN
+          = MiniTorch.OpsC01.Fq (Qred (MiniTorch.LemmasC01.qz 1 m / inject_Z (Z.of_nat (length r))))
+          /\ er_spec (c_ins c) (c_del c) (c_sub c) r h m
+      end.
+Proof. exact C02.Tie.error_rate_normalised. Qed.
+Print Assumptions c02_source_error_rate_normalised.
+
+(* non-vacuity: the batch of c02_nonvacuous (batch-first, eos = 9, costs 3/4, 1/4, 1: minimum-cost alignments with
+   different numbers of edits exist) meets the hypotheses, and the interpreted source - blocks, whole body, wrapper -
+   returns 3, 4, 4; with norm and costs 1/4, 3/4, 1 it returns 3/3, 1 (empty reference), 4/4 *)
+Example c02_source_nonvacuous :
+  let c := mkCfg (Some 9) false false true 3 1 4 (-100) false in
+  let c' := mkCfg (Some 9) false true true 1 3 4 0 false in
+  let ref := [[1; 1; 2; 9; 5]; [9; 1; 1; 9; 9]; [1; 2; 0; 0; 9]] in
+  let hyp := [[2; 1; 9; 7]; [2; 2; 2; 2]; [0; 2; 1; 9]] in
+  let f := fun z => MiniTorch.OpsC01.Fq (inject_Z z) in
+  C02.Tie.wf_src (c_bf c) 3 5 ref /\ C02.Tie.wf_src (c_bf c) 3 4 hyp /\
+  C02.SrcRun.src_er C02.SrcRun.er_blocks c 4 3 ref hyp = Some (Some [f 3; f 4; f 4]) /\
+  C02.SrcRun.src_er Gen.C02Src.er_body c 4 3 ref hyp = Some (Some [f 3; f 4; f 4]) /\
+  C02.SrcRun.src_er_wrap c 4 3 ref hyp = Some (Some [f 3; f 4; f 4]) /\
+  C02.SrcRun.src_er_wrap c' 4 3 ref hyp = Some (Some [f 1; f 1; f 1]).
+Proof.
+  cbv zeta. split; [split; [reflexivity|intros row [<-|[<-|[<-|[]]]]; reflexivity]|].
+  split; [split; [reflexivity|intros row [<-|[<-|[<-|[]]]]; reflexivity]|].
+  repeat split; vm_compute; reflexivity.
+Qed.
